@@ -18,7 +18,7 @@ import (
 
 type c10Live struct {
 	Monitor   bool       `json:"monitor"`
-	Fault     string     `json:"fault"` // timeouts timeouts-spread read-syscall read-perm read-other write-syscall write-other link
+	Fault     string     `json:"fault"` // timeouts timeouts-spread read-syscall read-perm read-other write-syscall write-other link write-syscall-outage write-other-outage
 	N         int        `json:"n"`     // number of timeouts / index of the failing scheduled write
 	FaultNS   int64      `json:"fault_ns"`
 	Pre       []advEvent `json:"pre"`  // traffic before and after the fault
@@ -47,7 +47,7 @@ func (c c10Live) expectation() string {
 		return "none" // never 5 in a row: every receive that times out fewer than 5 times is fine
 	case "read-syscall", "link":
 		return "redial"
-	case "write-syscall":
+	case "write-syscall", "write-syscall-outage":
 		if c.WriteDst == "multicast" && c.N == 0 {
 			// the initial RA of a (re)initialisation: the code deliberately treats its failure as fatal
 			// ("avoiding a needless start/error/restart loop"); whether that transmit error counts as
@@ -55,10 +55,6 @@ func (c c10Live) expectation() string {
 			return "either"
 		}
 		return "redial"
-	case "write-other":
-		if c.WriteDst == "multicast" && c.N == 0 {
-			return "fatal"
-		}
 	}
 	return "fatal"
 }
@@ -93,6 +89,12 @@ func c10LiveProp(t *testing.T, k *verifkit.Kit) func(c c10Live) error {
 			lat = append(lat, latRule{Dst: c.writeDst(), N: c.N, Err: "syscall"})
 		case "write-other":
 			lat = append(lat, latRule{Dst: c.writeDst(), N: c.N, Err: "other"})
+		case "write-syscall-outage":
+			// the link goes down: from the n-th write on, every transmission on the first connection
+			// fails - with latency and a burst pending, many of them at the same moment
+			lat = append(lat, latRule{Dst: c.writeDst(), N: c.N, Err: "syscall", From: true, FirstConn: true})
+		case "write-other-outage":
+			lat = append(lat, latRule{Dst: c.writeDst(), N: c.N, Err: "other", From: true, FirstConn: true})
 		}
 		if c.LatNS > 0 {
 			lat = append(lat, latRule{Dst: "any", N: -1, NS: c.LatNS})
@@ -226,7 +228,7 @@ func c10LiveProp(t *testing.T, k *verifkit.Kit) func(c c10Live) error {
 func c10GenLive(t *rapid.T) c10Live {
 	s := int64(time.Second)
 	c := c10Live{Monitor: rapid.IntRange(0, 2).Draw(t, "monitor") == 0}
-	faults := []string{"timeouts", "timeouts", "timeouts-spread", "read-syscall", "read-perm", "read-other", "link", "write-syscall", "write-other"}
+	faults := []string{"timeouts", "timeouts", "timeouts-spread", "read-syscall", "read-perm", "read-other", "link", "write-syscall", "write-other", "write-syscall-outage", "write-syscall-outage", "write-other-outage"}
 	if c.Monitor {
 		faults = faults[:7]
 	}
@@ -246,7 +248,7 @@ func c10GenLive(t *rapid.T) c10Live {
 			at = 0
 		}
 		c.Pre = append(c.Pre, advEvent{AtNS: at, Kind: "rs", From: rapid.SampledFrom([]string{"fe80::a", "fe80::b", "::", "2001:db8::c"}).Draw(t, "from"),
-			N: rapid.SampledFrom([]int{1, 1, 3, 30}).Draw(t, "burst")})
+			N: rapid.SampledFrom([]int{1, 1, 3, 30, 60}).Draw(t, "burst")})
 	}
 	for i, n := 0, rapid.IntRange(0, 4).Draw(t, "ndialfail"); i < n; i++ {
 		c.DialFail = append(c.DialFail, rapid.SampledFrom([]string{"notready", "syscall", "notready"}).Draw(t, "dialfail"))
@@ -266,7 +268,7 @@ func c10GenLive(t *rapid.T) c10Live {
 func c10Matrix(yield func(c10Live) bool) {
 	s := int64(time.Second)
 	for _, mon := range []bool{false, true} {
-		for _, f := range []string{"timeouts", "timeouts-spread", "read-syscall", "read-perm", "read-other", "link", "write-syscall", "write-other"} {
+		for _, f := range []string{"timeouts", "timeouts-spread", "read-syscall", "read-perm", "read-other", "link", "write-syscall", "write-other", "write-syscall-outage", "write-other-outage"} {
 			if mon && strings.HasPrefix(f, "write-") {
 				continue
 			}
@@ -289,6 +291,9 @@ func c10Matrix(yield func(c10Live) bool) {
 						}
 						if f == "timeouts-spread" {
 							c.StopNS = 5*s + int64(n+2)*2*s
+						}
+						if strings.HasSuffix(f, "-outage") {
+							c.LatNS = 200 * int64(time.Millisecond) // many failing transmissions in flight at once
 						}
 						if busy || strings.HasPrefix(f, "write-") {
 							c.Pre = []advEvent{{AtNS: 5*s - 100*int64(time.Millisecond), Kind: "rs", From: "fe80::a", N: 30}, {AtNS: 5 * s, Kind: "rs", From: "::", N: 2}}
